@@ -21,6 +21,7 @@ package address
 import (
 	"strings"
 
+	"github.com/foxcpp/maddy/framework/dns"
 	"golang.org/x/net/idna"
 )
 
@@ -118,6 +119,14 @@ func ValidDomain(domain string) bool {
 		return false
 	}
 	if strings.Contains(domain, "..") {
+		return false
+	}
+
+	// The domain has to be convertible into the U-labels form that is used for
+	// lookups and comparisons. dns.ToUnicode recognizes the ACE prefix written
+	// in any letter case, so a malformed A-label is rejected no matter how its
+	// prefix is spelled ("xn--", "XN--", "Xn--").
+	if _, err := dns.ToUnicode(domain); err != nil {
 		return false
 	}
 
